@@ -294,6 +294,7 @@ fn frame() -> impl Strategy<Value = Frame> {
 }
 
 pub fn run(ctx: &mut Ctx) {
+    let fs = ctx.first_shard();
     ctx.rule = "histories of 1-9 U2F registrations (challenge, 3 application parameters, key handles of 0..=255 bytes incl. 0/16/254/255) and authentications (registered or unknown handle, wrong application, counters incl. 0/max, all presence flag bytes, all three control bytes) on MemoryStore, the reference store and the Option slot; and well-formed extended-length request frames for register / authenticate (P1 in {3,7,8}) / version with and without Le. Non-trivial = a history with a successful authentication after a registration, or a frame with payload; distinct by history / frame.".into();
     ctx.assumptions = vec![
         "the registration signature may be DER or fixed r||s (the statement only requires that it verifies); the authentication signature is checked as DER".into(),
@@ -301,18 +302,18 @@ pub fn run(ctx: &mut Ctx) {
         "version frames are asserted with Le absent or 0 (= maximum, what U2F clients send); a data-less frame with a non-zero Le cannot be told from a truncated Lc frame by this parser and is measured only".into(),
         "a registered key handle presented with a different application is not constrained by the statement (measured); when the same key handle is registered again (under any application) only the newest registration is tracked".into(),
     ];
-    let n = ctx.tier.pick(1_200u32, 40_000u32);
+    let n = ctx.tier.pick(1_200u32, 400_000u32);
     match search(ctx, 17, n, history(), check_history) {
         Search::Pass => {}
         Search::Fail(h, e) => ctx.violation("histories", json!(h), &e),
     }
-    let n = ctx.tier.pick(20_000u32, 500_000u32);
+    let n = ctx.tier.pick(20_000u32, 6_000_000u32);
     match search(ctx, 27, n, frame(), check_frame) {
         Search::Pass => {}
         Search::Fail(f, e) => ctx.violation("frames", json!(f), &e),
     }
     // every handle length, once
-    for len in 0..=255usize {
+    for len in (0..=255usize).filter(|_| fs) {
         let h = History { store: (len % 3) as u8, steps: vec![Step::Register { challenge: [len as u8; 32], app: 1, handle: vec![0xA5; len] }, Step::Authenticate { challenge: [7; 32], known: Some(0), unknown: vec![], wrong_app: false, counter: len as u32, flags: len as u8, p1: len as u8 }] };
         if let Err(e) = check_history(ctx, &h) {
             ctx.violation("handle-lengths", json!(h), &e);
